@@ -2,13 +2,16 @@
 
 A session is data: {"disjoint": bool, "ops": [...]} with
   {"op":"new",   "h", "kind": "exp"|"sub"|"adv", "content": None | {"kind":"topo","seed","flavour"} | {"kind":"raw","spec"}}
-  {"op":"save",  "h", "slot", "fmt": "graphml"|"json", "via": "string"|"file"}        Topology.serialize
-  {"op":"edit",  "h", "seed"}                                                           edit the held model
+  {"op":"save",  "h", "slot", "fmt": "graphml"|"json", "via": "string"|"file", "path"?: k}     Topology.serialize
+                                            (path k: the file name model-<k>.txt, written again by later saves with the same k)
+  {"op":"edit",  "h", "seed", "how"?: "del-first"}                                      edit the held model (del-first: leave a gap
+                                            in the internal numbering)
   {"op":"load",  "h", "slot", "via": "string"|"file", "newid": None|str, "damage": None|how}   Topology.load
   {"op":"ctor",  "h", "kind", "slot", "via"}                                            <Kind>Topology(graph_file= / graph_string=)
   {"op":"clone", "h", "newid", "abc": bool}                                             graph_model.clone_graph / ABCPropertyGraph.clone_graph
   {"op":"delete","h"}                                                                   graph_model.delete_graph
-  {"op":"imp",   "slot", "entry", "gid"}                                                importer entry point on a saved text
+  {"op":"imp",   "slot", "entry", "gid", "damage"?: how}                                importer entry point on a saved text
+                                            (damage: the text is edited by the harness so that the importer refuses it)
   {"op":"enum",  "slot", "out", "to": "file"|"string"}        ABCGraphImporter.enumerate_graph_nodes[_to_string] on a saved GraphML text
   {"op":"merge", "h", "other", "idx"}       graph_model.merge_nodes(<idx-th NodeID both models have>, other_graph=<model of other>)
                                             (shared store; the two models share NodeIDs after a load with new_graph_id)
@@ -151,7 +154,15 @@ class Runner:
         try:
             if op["via"] == "file":
                 self.im.nfile += 1
-                s.path = os.path.join(self.im.tmp, "t%d.txt" % self.im.nfile)
+                if op.get("path") is not None:
+                    # a file name that is written again later in the session (with another model): earlier slots that
+                    # were saved there keep their text and lose the path
+                    s.path = os.path.join(self.im.tmp, "model-%s.txt" % op["path"])
+                    for o in self.slots.values():
+                        if o.path == s.path:
+                            o.path = None
+                else:
+                    s.path = os.path.join(self.im.tmp, "t%d.txt" % self.im.nfile)
                 r = t.serialize(file_name=s.path, fmt=fmt)
                 ev["returned"] = r
                 with open(s.path, "r") as f:       # the way ABCGraphImporter.import_graph_from_file reads it
@@ -168,7 +179,9 @@ class Runner:
     def op_edit(self, op, ev):
         h = op["h"]
         nids = L.node_ids(self.im, self.gid(h))
-        ev["edits"] = L.mutate_graph(self.topos[h].graph_model, nids, op["seed"]) if nids else []
+        if any(not isinstance(x, str) or not x for x in nids):
+            nids = []       # the model came from a harness-damaged text (a node without NodeID): the editing calls do not apply
+        ev["edits"] = L.mutate_graph(self.topos[h].graph_model, nids, op["seed"], how=op.get("how")) if nids else []
 
     def text_for(self, op):
         """(text, path) of a slot for the requested way in; optional harness-side damage of the text"""
@@ -297,19 +310,23 @@ class Runner:
 
     def op_imp(self, op, ev):
         s = self.slots[op["slot"]]
-        ev.update(slot=s, text=s.text, pre={g: self.snap(g) for g in set(self.live_ids().values()) | {op.get("gid") or s.gid}})
+        text = s.text
+        if op.get("damage"):
+            from props.c01 import edit_text
+            text = edit_text(text, s.fmt, op["damage"], random.Random("C01/damage/%s" % op.get("slot")))
+        ev.update(slot=s, text=text, pre={g: self.snap(g) for g in set(self.live_ids().values()) | {op.get("gid") or s.gid}})
         entry = op["entry"]
         try:
             imp = self.im.imp
-            path = s.path or self.im.write(s.text)
+            path = (s.path if not op.get("damage") else None) or self.im.write(text)
             if entry == "file":
                 g = imp.import_graph_from_file(graph_file=path, graph_id=op["gid"])
             elif entry == "file_direct":
                 g = imp.import_graph_from_file_direct(graph_file=path)
             elif entry == "string":
-                g = imp.import_graph_from_string(graph_string=s.text, graph_id=op["gid"])
+                g = imp.import_graph_from_string(graph_string=text, graph_id=op["gid"])
             else:
-                g = imp.import_graph_from_string_direct(graph_string=s.text)
+                g = imp.import_graph_from_string_direct(graph_string=text)
             ev["result"] = ["ok", L.val(g.graph_id)]
         except Exception as e:
             ev["result"] = ["err", L_err(e)]
@@ -379,6 +396,40 @@ def corner_sessions(seed):
                         {"op": "new", "h": 2, "kind": kind, "content": None}, {"op": "load", "h": 2, "slot": 1, "via": via, "newid": None},
                         {"op": "save", "h": 1, "slot": 2, "fmt": fmt, "via": via}, {"op": "load", "h": 1, "slot": 2, "via": via, "newid": None},
                         {"op": "ctor", "h": 3, "kind": kind, "slot": 2, "via": via}]})
+                # a model whose internal numbering has a gap is saved and comes back under the same id, numbered afresh: into the
+                # same object, through another object (whatever remembers where a node was is wrong now)
+                out.append({"disjoint": disj, "tag": "renumbered-copy", "ops": [
+                    {"op": "new", "h": 0, "kind": "exp", "content": {"kind": "raw", "spec": L.gen_raw_spec(
+                        random.Random("C01/corner-raw/%s/%d" % (seed, k)), maxn=6, maxe=6, maxp=3, nid_adversarial=False)}},
+                    {"op": "edit", "h": 0, "seed": "g%d" % k, "how": "del-first"}, save,
+                    {"op": "load", "h": 0, "slot": 0, "via": via, "newid": None},
+                    {"op": "edit", "h": 0, "seed": "h%d" % k, "how": "del-first"}, {"op": "save", "h": 0, "slot": 1, "fmt": fmt, "via": via},
+                    {"op": "ctor", "h": 1, "kind": "exp", "slot": 1, "via": via},
+                    {"op": "imp", "slot": 1, "entry": "string", "gid": "renumbered-%d" % k},
+                    {"op": "load", "h": 0, "slot": 0, "via": "string", "newid": None}]})
+                # state that outlives a call. (1) one file name, two models: saved and loaded one after the other
+                out.append({"disjoint": disj, "tag": "reused-file-name", "ops": [
+                    new, {"op": "new", "h": 1, "kind": "exp", "content": c2}, {"op": "new", "h": 2, "kind": kind, "content": None},
+                    {"op": "new", "h": 3, "kind": "exp", "content": None},
+                    {"op": "save", "h": 0, "slot": 0, "fmt": fmt, "via": "file", "path": k},
+                    {"op": "load", "h": 2, "slot": 0, "via": "file", "newid": None},
+                    {"op": "save", "h": 1, "slot": 1, "fmt": fmt, "via": "file", "path": k},
+                    {"op": "load", "h": 3, "slot": 1, "via": "file", "newid": None},
+                    {"op": "edit", "h": 0, "seed": "r%d" % k}, {"op": "save", "h": 0, "slot": 2, "fmt": fmt, "via": "file", "path": k},
+                    {"op": "imp", "slot": 2, "entry": "file_direct" if via == "file" else "file", "gid": "re-%d" % k},
+                    {"op": "ctor", "h": 4, "kind": "exp", "slot": 1, "via": "file"}]})
+                # (2) an import that is refused (at each stage at which the importer can refuse), then ordinary round trips
+                out.append({"disjoint": disj, "tag": "after-refused-import", "ops": [
+                    new, {"op": "new", "h": 1, "kind": "exp", "content": c2}, {"op": "new", "h": 2, "kind": "exp", "content": None},
+                    save, {"op": "save", "h": 1, "slot": 1, "fmt": fmt, "via": via},
+                    {"op": "imp", "slot": 0, "entry": via, "gid": "draft-%d" % k, "damage": "nonid-last+residue"},
+                    {"op": "load", "h": 2, "slot": 1, "via": "string", "newid": "after-refusal-%d" % k},
+                    {"op": "imp", "slot": 1, "entry": via + "_direct", "gid": "unused-%d" % k, "damage": "mixed+residue"},
+                    {"op": "clone", "h": 1, "newid": "clone-after-refusal-%d" % k, "abc": via == "file"},
+                    {"op": "load", "h": 2, "slot": 0, "via": via, "newid": None, "damage": "nogid+residue"},
+                    {"op": "ctor", "h": 3, "kind": "exp", "slot": 1, "via": via},
+                    {"op": "imp", "slot": 0, "entry": "string", "gid": "draft2-%d" % k, "damage": "emptynid+residue"},
+                    {"op": "imp", "slot": 1, "entry": via, "gid": "copy-after-refusal-%d" % k}]})
                 if fmt == "graphml":
                     out.append({"disjoint": disj, "tag": "enumerate", "ops": [
                         new, save, {"op": "enum", "slot": 0, "out": 1, "to": "file"}, {"op": "enum", "slot": 1, "out": 2, "to": "string"},
@@ -415,6 +466,8 @@ def gen_session(rng, tag, thorough=False):
             s = len(slots)
             ops.append({"op": "save", "h": rng.choice(savable), "slot": s, "fmt": rng.choice(["graphml", "json"]),
                         "via": rng.choice(["string", "file"])})
+            if ops[-1]["via"] == "file" and rng.random() < 0.6:
+                ops[-1]["path"] = rng.randrange(2)          # file names are written again with whatever is saved next
             slots.append(s)
         elif not slots:
             break
@@ -424,7 +477,7 @@ def gen_session(rng, tag, thorough=False):
             via = rng.choice(["string", "string", "file"])
             if via == "string" and rng.random() < (0.25 if disj else 0.4) and not _is_adv(ops, h):
                 newid = rng.choice(["nid-%d" % rng.randrange(3), "nid-%s-%d" % (tag, step)])
-            dmg = rng.choice(["mixed", "nogid", "nonid", "nonodes"]) if rng.random() < 0.08 else None
+            dmg = rng.choice(["mixed", "nogid", "nonid", "nonodes", "nonid-last+residue", "nonid+residue"]) if rng.random() < 0.12 else None
             ops.append({"op": "load", "h": h, "slot": rng.choice(slots), "via": via, "newid": newid, "damage": dmg})
             if dmg is None:
                 dead.discard(h)
@@ -441,15 +494,19 @@ def gen_session(rng, tag, thorough=False):
             ops.append({"op": "merge", "h": a, "other": b, "idx": rng.randrange(1000)})
         elif r < 0.84 and savable:
             ops.append({"op": "edit", "h": rng.choice(savable), "seed": "%s/%d" % (tag, step)})
+            if rng.random() < 0.35:
+                ops[-1]["how"] = "del-first"
         elif r < 0.89 and savable:
             ops.append({"op": "clone", "h": rng.choice(savable), "newid": "cl-%s-%d" % (tag, step), "abc": rng.random() < 0.5})
-        elif r < 0.93:
+        elif r < 0.92:
             o = len(slots)
             ops.append({"op": "enum", "slot": rng.choice(slots), "out": o, "to": rng.choice(["file", "string"])})
             slots.append(o)
-        elif r < 0.96:
+        elif r < 0.97:
             ops.append({"op": "imp", "slot": rng.choice(slots), "entry": rng.choice(["file", "file_direct", "string", "string_direct"]),
                         "gid": "imp-%s-%d" % (tag, step)})
+            if rng.random() < 0.4:
+                ops[-1]["damage"] = rng.choice(["nonid-last", "nonid", "emptynid", "mixed", "nogid"]) + "+residue"
         elif savable:
             h = rng.choice(savable)
             ops.append({"op": "delete", "h": h})
